@@ -224,7 +224,7 @@ def pairUp : List Top → Option (List CEvent)
   | a :: b :: rest => (pairUp rest).map (fun r => ⟨a, b⟩ :: r)
   | _ => none
 
-/-! `cmerge <mspec> <filter> (<id> <A|U|R> <old> <new>)*`: one parked window of a lossy `Collection.Pull`.
+/-! `cmerge <mspec> <filter> <inc> (<id> <A|U|R> <old> <new>)*`: one parked window of a lossy `Collection.Pull`.
 Values are tagged with their position in the request (old of event k: 2k, new: 2k+1) so that the answer
 names WHICH values the delivered change carries: `q=<id>:<TYPE>:<old pos|->:<new pos|->,...`. -/
 def parseCT? (s : String) : Option CT :=
@@ -288,13 +288,15 @@ def handle? (toks : List String) : Option String :=
     match eqUnknownRaw x y with
     | some r => pure (showBool r)
     | none => pure "malformed"
-  | "cmerge" :: m :: f :: evs => do
+  | "cmerge" :: m :: f :: i :: evs => do
     let e ← parseOptMSpec? m
     let flt ← parseFilter? f
+    let inc ← parseInc? i
     let chgs ← parseChgs 0 evs
     let e' : Option (Option (Val × Nat) → Option (Val × Nat) → Bool) :=
       e.map (fun e a b => e (a.map Prod.fst) (b.map Prod.fst))
-    pure ("q=" ++ ",".intercalate ((lossyWindow e' (fun p => (flt p.1, p.2)) chgs).map showChg))
+    let inc' : Option (Val × Nat → Bool) := inc.map (fun f p => f p.1)
+    pure ("q=" ++ ",".intercalate ((lossyWindow e' (fun p => (flt p.1, p.2)) inc' chgs).map showChg))
   | _ => none
 
 def handle (toks : List String) : String :=
